@@ -22,3 +22,4 @@ open SamVerif.Differ
 #print axioms toplevel_err_text
 #print axioms toplevel_edits_eq
 #print axioms code_action_offered_iff
+#print axioms full_document_edit_text
